@@ -54,13 +54,13 @@ func (c *Ctx) cod8() {
 		return
 	}
 	type layout struct {
-		hashCtor             string
-		trailer              int64
-		seqOrder, sumOrder   string
-		seqLo, seqHi, sumLo  int64 // offsets inside the trailer
-		hashedTrailer        int64 // how many trailer bytes are hashed
-		fresh                bool
-		found                map[string]bool
+		hashCtor            string
+		trailer             int64
+		seqOrder, sumOrder  string
+		seqLo, seqHi, sumLo int64 // offsets inside the trailer
+		hashedTrailer       int64 // how many trailer bytes are hashed
+		fresh               bool
+		found               map[string]bool
 	}
 	w := layout{found: map[string]bool{}}
 	var trailerAlloc *ssa.Alloc
@@ -398,7 +398,6 @@ func (c *Ctx) cod9(which map[string]bool) {
 		c.S.Floor("COD-11", "marker key expressions", n, 3)
 	}
 }
-
 
 // sprintfFormat returns the constant format of the single fmt.Sprintf in fn.
 func sprintfFormat(fn *ssa.Function) string {
